@@ -112,7 +112,14 @@ def main(out):
     tok2 = b64u(json.dumps(hdr).encode()).decode() + "." + tok.split(".", 1)[1]
     flags.append(probe("1pu_keytype", lambda: jwe.decrypt_compact(tok2, rsa, algorithms=algs, sender_key=ecb),
                        is_err(InvalidKeyTypeError), is_err(AttributeError)))
-    assert len(flags) == 22
+    # deep values: the message of InvalidKeyIdError must not format a kid that is not a str
+    from joserfc.jwk import KeySet
+    from joserfc.errors import InvalidKeyIdError
+    dk = []
+    for _ in range(20000):
+        dk = [dk]
+    flags.append(probe("kid_repr", lambda: KeySet([ec, rsa]).get_by_kid(dk), is_err(InvalidKeyIdError), is_err(RecursionError)))
+    assert len(flags) == 23
     text = ("(* generated by harness/tables_c16.py from the tree under test: which guards of\n"
             "   model/C16Model.v (order of guards_list) the code has *)\n"
             "From Coq Require Import List Bool.\nImport ListNotations.\n"
